@@ -210,10 +210,39 @@ class FileResolver:
                 glob_part = str(Path(*parts[i:]))
                 break
 
+        tool_ignore = self._get_tool_ignore(root)
         for path in root.glob(glob_part):
-            if path.is_file() and self._include_spec.match_file(path.name):
-                if not self._exceeds_max_size(path):
-                    yield path
+            if not path.is_file() or not self._include_spec.match_file(path.name):
+                continue
+            if self._exceeds_max_size(path):
+                continue
+            # Same exclusions as for directory traversal: files in excluded or ignored
+            # directories, and files matched by the tool ignore file, are not wanted.
+            rel = path.relative_to(root)
+            if any(
+                self._is_dir_excluded_by_patterns(parent.name, parent, tool_ignore)
+                for parent in list(rel.parents)[:-1]
+            ):
+                continue
+            if tool_ignore and tool_ignore.match_file(path.name):
+                continue
+            yield path
+
+    def _is_dir_excluded_by_patterns(
+        self, dirname: str, rel_path: Path, tool_ignore: pathspec.PathSpec | None
+    ) -> bool:
+        """Exclusion and tool-ignore part of `_is_dir_excluded()` (no gitignore lookup)."""
+        dir_with_slash = dirname + "/"
+        rel_with_slash = str(rel_path) + "/"
+        if self._exclude_spec.match_file(dir_with_slash) or self._exclude_spec.match_file(
+            rel_with_slash
+        ):
+            return True
+        if tool_ignore and (
+            tool_ignore.match_file(dir_with_slash) or tool_ignore.match_file(rel_with_slash)
+        ):
+            return True
+        return False
 
     def _exceeds_max_size(self, path: Path) -> bool:
         """Check if a file exceeds the configured max size. 0 = no limit."""
